@@ -153,7 +153,104 @@ def run(prog, job: dict) -> dict:
     return {"job": {"integ": integ, "physical": physical, "cause": case["cause"], "slot": case["slot"], "frame_size": job["frame_size"]}, "paths": paths, "funcs": sorted(funcs)}
 
 
+def run_driver(prog, job: dict) -> dict:
+    """The integration's own driver (stream_frames(stream, statements)) used twice on one stream: the first batch
+    contains the rejected statement; the caller catches and sends a second batch through the same stream."""
+    integ, physical, case = job["integ"], job["physical"], job["case"]
+
+    def scenario(it: Interp) -> dict:
+        k = K.Kit(it)
+        opts = P.make_options(k, logical=None, preset=case["preset"], frame_size=job["frame_size"], generalized=True, rdf_star=integ == "generic")
+        if integ == "generic":
+            stream = k.stream(P.STREAM_FOR[physical], k.generic_encoder(k.attr(opts, "lookup_preset")), opts)
+        else:
+            stream = k.method(k.get(K.ST, P.STREAM_FOR[physical]), "for_rdflib", opts)
+        mod = K.GS if integ == "generic" else K.RS
+        mk = P.generic_statement if integ == "generic" else P.rdflib_statement
+        seq = case["seq"]
+        cut = next(i for i, (e, _s) in enumerate(seq) if e == "bad") + 1
+        frames: list = []
+        accepted: list = []
+        log: list = []
+        for bi, batch in enumerate((seq[:cut], seq[cut:])):
+            objs = []
+            for expect, st in batch:
+                if expect == "bad":
+                    terms = [_build(k, integ, t) for t in st]
+                    objs.append(k.new(K.GK if integ == "generic" else K.RP, "Triple" if len(terms) == 3 else "Quad", *terms) if len(terms) in (3, 4) else tuple(terms))
+                else:
+                    objs.append(mk(k, st))
+            pulled: list = []
+            gen_in = k.generator(objs, on_pull=lambda i, got, pulled=pulled: pulled.append(i))
+            try:
+                g = it.get_iter(k.call(k.get(mod, "stream_frames"), stream, gen_in))
+                while True:
+                    ok, fr = it.next_value(g)
+                    if not ok:
+                        break
+                    if isinstance(fr, Msg):
+                        frames.append(fr)
+                log.append(("returned", f"batch{bi}"))
+                accepted += [st for e, st in batch if e == "ok"]
+            except PyRaise as pr:
+                log.append(("raised", f"batch{bi}", it.exc_class_name(pr.exc)))
+                if bi == 0:
+                    accepted += [st for e, st in batch if e == "ok"]
+        ref = refdec.decode(it.schema, frames)
+        return {"log": log, "ref_errors": ref.errors, "got": freeze([x for x in ref.items]), "want_full": freeze(P.expected_items(accepted, physical)), "rows": pipejob.frame_summary(frames)}
+
+    paths = []
+    for it, out in explore(prog, scenario, max_paths=32, generic_strings=True):
+        paths.append(out[1] if out[0] == "ok" else {"error": it.exc_class_name(out[1].exc), "site": str(out[1].site)})
+    return {"job": {"integ": integ, "physical": physical, "cause": case["cause"], "slot": case["slot"], "frame_size": job["frame_size"]}, "paths": paths}
+
+
+def _driver(chk: Check) -> None:
+    rule = "C20.EFFECT.driver-exception-safety"
+    chk.rule(rule, "stream_frames(stream, statements) raising on a rejected statement, caught, then used again on the same stream: the second call refuses, or everything written is valid and decodes to a prefix of the first batch's accepted statements followed by the second batch", floor=20)
+    jobs = []
+    for integ in ("generic", "rdflib"):
+        for physical in (1, 2):
+            arity = 3 if physical == 1 else 4
+            for case in cases(arity, integ):
+                if case["cause"] not in ("unsupported-term", "typed-literal-disabled-table", "unsupported-term-after-known-terms") or case["slot"] == "nested":
+                    continue
+                jobs.append(dict(integ=integ, physical=physical, case=case, frame_size=250))
+    for res in pmap(run_driver, jobs):
+        if res is None:
+            continue
+        jb = res["job"]
+        inst = f"{jb['integ']} physical={jb['physical']} cause={jb['cause']} slot={jb['slot']} via stream_frames twice"
+        construct = f"pyjelly.integrations.{jb['integ']}.serialize.stream_frames:dirty-state-after-exception"
+        for p in res["paths"]:
+            chk.paths += 1
+            if "error" in p:
+                chk.fail(rule, inst, construct, f"driver raises outside the calls: {p['error']} at {p['site']}")
+                continue
+            first, second = p["log"][0], p["log"][1]
+            if first[0] != "raised":
+                chk.fail("C20.EFFECT.rejection-raises", inst, construct.replace("dirty-state-after-exception", f"accepts-{jb['cause']}"), "the batch with the unencodable statement returns normally")
+                continue
+            if second[0] == "raised":
+                errs = [e for e in p["ref_errors"] if not e.startswith("stream ends inside an open graph")]
+                # refused: what was written must be a valid prefix
+                if errs:
+                    chk.fail(rule, inst, construct, f"stream refused further use but the rows written so far are invalid: {errs[:2]}")
+                else:
+                    chk.ok(rule, inst, {"second_batch": "refused", "exc": second[2]})
+                continue
+            # accepted: valid, and decodes to (a prefix of batch 1's accepted statements) + batch 2
+            got, want = list(p["got"]), list(p["want_full"])
+            n2 = len(want) - 1  # batch 1 has exactly one accepted statement before the bad one
+            ok_content = not p["ref_errors"] and (got == want or got == want[1:]) and n2 >= 0
+            if ok_content:
+                chk.ok(rule, inst, {"second_batch": "accepted", "decoded": len(got)})
+            else:
+                chk.fail(rule, inst, construct, f"{jb['cause']} at slot {jb['slot']}: the same stream accepts the next batch, but what was written is {'invalid: ' + str(p['ref_errors'][:2]) if p['ref_errors'] else 'decoded differently: ' + pipejob.first_diff(got, want)}; calls: {p['log']}")
+
+
 def check(chk: Check) -> None:
+    chk.part("driver", lambda: _driver(chk))
     rule = "C20.EFFECT.exception-safety"
     chk.rule(rule, "after a statement is rejected with an exception and the caller carries on, the frames written are valid and decode to exactly the accepted statements (or the stream refuses further use)", floor=80)
     chk.rule("C20.EFFECT.rejection-raises", "each unencodable statement is actually rejected with an exception", floor=80)
